@@ -145,8 +145,9 @@ def discharge(ob, z3_ms=None, cli_s=None, use_cli=True):
                 if res == "sat":
                     return dict(status="failed", backend=name, time=time.time() - t0, model=cand)
     if cand is not None:
-        return dict(status="failed", backend="z3-5.1(api) candidate model, quantified axioms undecided", time=time.time() - t0,
-                    model=cand, candidate=True, reason=reason)
+        # a model of the quantifier-free part only: NOT a refutation; the caller may try to replay it
+        return dict(status="candidate", backend="z3-5.1(api) model of the quantifier-free part; quantified facts undecided",
+                    time=time.time() - t0, model=cand, candidate=True, reason=reason)
     return dict(status="unknown", backend="z3+cvc5", time=time.time() - t0, model=None, reason=reason)
 
 
